@@ -118,6 +118,26 @@ def neg_index(v: int, n: int) -> bool:
     return done(increment(v, n) == n + v and translate_from_any(v, n, 0) == n + v)
 
 
+def neg_index_empty(v: int) -> bool:
+    """
+    pre: -1000 <= v < 0
+    post: _
+    """
+    # a negative position on an EMPTY row or table (length 0) designates position 0: reading there gives an
+    # empty cell or row instead of failing
+    return done(increment(v, 0) == 0 and translate_from_any(v, 0, 0) == 0 and translate_from_any(v, 0, 1) == 0)
+
+
+def neg_index_wrap(v: int, n: int) -> bool:
+    """
+    pre: 1 <= n <= 6 and -3 * n <= v < 0
+    post: _
+    """
+    # below -n the position keeps wrapping: the result is the position congruent to v in 0..n-1
+    r = increment(v, n)
+    return done(0 <= r < n and (r - v) % n == 0 and translate_from_any(v, n, 1) == r)
+
+
 def nonneg_index(v: int, n: int) -> bool:
     """
     pre: 0 <= n and 0 <= v
